@@ -148,6 +148,35 @@ func ruleLogShapes(c *eng.Ctx) {
 		})
 		c.Check(ok, "reverse scan from the end starts at the last entry", p.Pos(fn.Pos()), "CountEntries() - 1", "the reverse scanner does not start at entry count - 1")
 	}
+	if fn := c.Fn(cl + "newReverseIndexScannerFromEnd"); fn != nil {
+		_, ok := allCmpExact(fn, eng.AnyV, eng.IntConst(0), eng.LT)
+		c.Check(ok, "reverse scan from the end clamps only an empty index", p.Pos(fn.Pos()), "start slot replaced only when it is < 0", "the start slot of the reverse scanner is clamped by a test other than `< 0`: a one-entry index is treated as empty")
+	}
+	stepBy := func(fn *ssa.Function, typ string, op token.Token) bool {
+		f := p.Field(clPkg, typ, "offset")
+		for _, st := range eng.FieldStores(fn, func(fa *ssa.FieldAddr) bool { return fieldIs(fa, f) }) {
+			if eng.Bin(op, eng.Load(f, nil), eng.IntConst(1))(st.Val) {
+				return true
+			}
+		}
+		return false
+	}
+	if fn := c.Fn(cl + "(*reverseIndexScanner).Scan"); fn != nil {
+		f := p.Field(clPkg, "reverseIndexScanner", "offset")
+		done := eng.CmpEdges(fn, eng.Load(f, nil), eng.IntConst(0), eng.LT)
+		_, exact := allCmpExact(fn, eng.Load(f, nil), eng.IntConst(0), eng.LT)
+		more := eng.CmpEdges(fn, eng.Load(f, nil), eng.IntConst(0), eng.GE)
+		ok := len(done) > 0 && exact && stepBy(fn, "reverseIndexScanner", token.SUB)
+		for _, rd := range eng.CallsIn(fn, cl+"index.ReadEntryAtLogOffset") {
+			if g, _ := eng.GuardedBy(fn, rd.(ssa.Instruction), more); !g {
+				ok = false
+			}
+		}
+		c.Check(ok, "reverse index scan visits slots start, start-1, …, 0", p.Pos(fn.Pos()), "EOF exactly on offset < 0; read then offset--", "reverseIndexScanner.Scan does not end exactly below slot 0 or does not step back by one: the oldest entry is skipped or an entry is delivered twice")
+	}
+	if fn := c.Fn(cl + "(*indexScanner).Scan"); fn != nil {
+		c.Check(stepBy(fn, "indexScanner", token.ADD), "forward index scan advances by one slot", p.Pos(fn.Pos()), "offset++ after a successful read", "indexScanner.Scan does not advance by exactly one slot")
+	}
 	// first write initialises firstOffset / firstWriteTime; every write updates lastOffset / lastWriteTime
 	if fn := c.Fn(cl + "(*segment).write"); fn != nil {
 		fw := p.Field(clPkg, "segment", "firstWriteTime")
